@@ -225,6 +225,11 @@ pub fn interp_programs(_thorough: bool) -> Vec<String> {
         "local function f(string) return `{string}a` end\nreturn f(5)",
         "local o = setmetatable({}, {__tostring = function() E1(\"ts\") return \"O\" end})\nreturn `{o}`, `a{o}b`",
         "return `{EI(1)}{EI(2)}{EI(3)}`",
+        // values converted by `__tostring` next to values with effects: every value is evaluated before any is converted
+        "return `{m}{E1()}`",
+        "return `{E1()}{m}`",
+        "return `a{m}b{m}c{EI(1)}`",
+        "local o = setmetatable({n = 0}, {__tostring = function(self) return \"n=\" .. self.n end})\nlocal function bump() o.n = o.n + 1 return o.n end\nreturn `{o} {bump()}`, `{bump()} {o}`",
         "return `{`{`{x}`}`}`",
         "for i = 1, 2 do E1(`i={i}`) end\nreturn 0",
         "if `{x}` == \"3\" then return 1 end\nreturn 2",
